@@ -213,9 +213,19 @@ class Remap:
         self._chk, self._map, self._skip = chk, dict(mapping), set(skip)
         self.model, self.pid, self.tier = chk.model, chk.pid, chk.tier
 
+    def _target(self, rule, instance=None):
+        """rule id here (None: not mirrored); a mapping value (rule id, instance prefix) mirrors only the instances with that prefix"""
+        tgt = self._map.get(rule)
+        if isinstance(tgt, tuple):
+            tgt, prefix = tgt
+            if instance is not None and not str(instance).startswith(prefix):
+                return None
+        return tgt
+
     def rule(self, rule_id, text):
-        if rule_id in self._map and self._map[rule_id] not in self._chk.rules:
-            self._chk.rule(self._map[rule_id], text)
+        tgt = self._target(rule_id)
+        if tgt is not None and tgt not in self._chk.rules:
+            self._chk.rule(tgt, text)
 
     def loc(self, fi_or_path, node=None):
         return self._chk.loc(fi_or_path, node)
@@ -224,8 +234,9 @@ class Remap:
         self._chk.used(*qualnames)
 
     def add(self, rule, instance, ok, detail, loc="", **extra):
-        if rule in self._map and (rule, instance) not in self._skip:
-            return self._chk.add(self._map[rule], instance, ok, detail, loc, **extra)
+        tgt = self._target(rule, instance)
+        if tgt is not None and (rule, instance) not in self._skip:
+            return self._chk.add(tgt, instance, ok, detail, loc, **extra)
         return None
 
     def holds(self, rule, instance, detail, loc="", **extra):
@@ -238,7 +249,7 @@ class Remap:
         return self.add(rule, instance, None, detail, loc, **extra)
 
     def floor(self, rule, what, count, minimum):
-        if rule in self._map:
+        if rule in self._map and not isinstance(self._map[rule], tuple):
             self._chk.floor(self._map[rule], what, count, minimum)
 
 
